@@ -129,7 +129,7 @@ def strip_lean_comments(src):
 def forbidden_scan():
     hits = []
     for root, _, files in os.walk(LEAN):
-        if ".lake" in root:
+        if ".lake" in root or "/WIP" in root:
             continue
         for fn in files:
             if fn.endswith(".lean"):
@@ -152,44 +152,52 @@ def theorems_of(module_file):
         m = re.match(r"\s*end\s+(\S+)", line)
         if m and ns and ns[-1] == m.group(1):
             ns.pop(); continue
-        m = re.match(r"\s*(?:@\[[^\]]*\]\s*)?(?:private\s+|protected\s+)?theorem\s+([^\s:({\[]+)", line)
+        m = re.match(r"\s*(?:@\[[^\]]*\]\s*)?(?:protected\s+)?theorem\s+([^\s:({\[]+)", line)
         if m:
             names.append(".".join(ns + [m.group(1)]))
     return names
 
 
-def prove(ctx, prop_module, leanchecker=None):
-    """build the property's theorem module, audit axioms. Fills ctx.obligations/discharged."""
+def prop_modules(prop):
+    """Iox2.Props.<prop> and every Iox2.Props.<prop><Suffix> module file"""
+    d = os.path.join(LEAN, "Iox2", "Props")
+    mods = sorted(f[:-5] for f in os.listdir(d) if f.endswith(".lean") and f.startswith(prop))
+    return ["Iox2.Props." + m for m in mods]
+
+
+def prove(ctx, prop_module=None, leanchecker=None):
+    """build the property's theorem modules, audit axioms. Fills ctx.obligations/discharged."""
     t = time.time()
-    modfile = os.path.join(LEAN, prop_module.replace(".", "/") + ".lean")
-    names = theorems_of(modfile)
+    modules = [prop_module] if prop_module else prop_modules(ctx.prop)
+    names = []
+    for m in modules:
+        names += theorems_of(os.path.join(LEAN, m.replace(".", "/") + ".lean"))
     ctx.obligations += names
-    ok, log = lake_build([prop_module])
+    ctx.extra["lean_modules"] = modules
+    ok, log = lake_build(modules)
     if not ok:
-        # find which theorems failed: error lines "file:line:col: error"
         errs = [l for l in log.split("\n") if "error" in l]
-        ctx.proof_errors.append((prop_module, "\n".join(errs[:40]) or log[-3000:]))
-        ctx.log(f"[lean] build of {prop_module} FAILED")
+        ctx.proof_errors.append((",".join(modules), "\n".join(errs[:40]) or log[-3000:]))
+        ctx.log(f"[lean] build of {modules} FAILED")
         return False
     hits = forbidden_scan()
     if hits:
         ctx.proof_errors.append(("forbidden-construct", "\n".join(hits[:20])))
         return False
-    # axiom audit
     audit = os.path.join(ctx.rundir, "Audit.lean")
     with open(audit, "w") as f:
-        f.write(f"import {prop_module}\n")
+        for m in modules:
+            f.write(f"import {m}\n")
         for n in names:
             f.write(f"#print axioms {n}\n")
     rc, out, err = sh(["lake", "env", "lean", audit], cwd=LEAN, timeout=1200)
     if rc != 0:
         ctx.proof_errors.append(("axiom-audit", (out + err)[-3000:]))
         return False
-    # parse: "'name' depends on axioms: [a, b]" or "'name' does not depend on any axioms"
     text = out.replace("\n  ", " ").replace("\n ", " ")
     good = True
     seen = {}
-    for m in re.finditer(r"'([^']+)' (does not depend on any axioms|depends on axioms: \[([^\]]*)\])", text):
+    for m in re.finditer(r"'(\S+)' (does not depend on any axioms|depends on axioms: \[([^\]]*)\])", text):
         axs = set(a.strip() for a in (m.group(3) or "").split(",") if a.strip())
         seen[m.group(1)] = axs
     for n in names:
@@ -199,13 +207,15 @@ def prove(ctx, prop_module, leanchecker=None):
             ctx.proof_errors.append((n, f"depends on disallowed axioms {sorted(seen[n] - ALLOWED_AXIOMS)}")); good = False
         else:
             ctx.discharged.append(n)
-    ctx.extra.setdefault("axioms", {}).update({k: sorted(v) for k, v in seen.items()})
+    used = sorted(set().union(*seen.values())) if seen else []
+    ctx.extra["axioms_used"] = used
     if good and (leanchecker if leanchecker is not None else ctx.tier == "thorough"):
-        rc, out, err = sh(["lake", "env", "leanchecker", prop_module], cwd=LEAN, timeout=3000)
-        ctx.extra["leanchecker"] = "ok" if rc == 0 else (out + err)[-500:]
-        if rc != 0:
-            ctx.proof_errors.append(("leanchecker", (out + err)[-2000:])); good = False
-    ctx.log(f"[lean] {prop_module}: {len(ctx.discharged)}/{len(ctx.obligations)} theorems checked, axioms ok ({time.time()-t:.1f}s)")
+        for m in modules:
+            rc, out, err = sh(["lake", "env", "leanchecker", m], cwd=LEAN, timeout=3000)
+            ctx.extra.setdefault("leanchecker", {})[m] = "ok" if rc == 0 else (out + err)[-500:]
+            if rc != 0:
+                ctx.proof_errors.append(("leanchecker:" + m, (out + err)[-2000:])); good = False
+    ctx.log(f"[lean] {modules}: {len(ctx.discharged)}/{len(ctx.obligations)} theorems checked, axioms ⊆ {used} ({time.time()-t:.1f}s)")
     return good
 
 
@@ -388,7 +398,7 @@ def finish(ctx, level="proof", rule="", checker_cmd="", extra_assumptions=()):
     wall = time.time() - ctx.t0
     cov = dict(
         obligations=len(ctx.obligations), discharged=len(ctx.discharged),
-        checker_cmd=checker_cmd or f"cd /verif/lean && lake build Iox2.Props.{ctx.prop} && #print axioms (all theorems)",
+        checker_cmd=checker_cmd or f"cd /verif/lean && lake build {' '.join(ctx.extra.get('lean_modules', []))} ; lake env lean <generated #print axioms file>",
         trusted_base=TRUSTED_BASE,
         theorems=ctx.obligations,
         evaluations=ctx.evaluations, distinct_nontrivial=len(ctx.distinct),
